@@ -783,7 +783,7 @@ def run_family(chk, analysers: List[str], fam=None, jobs: int = 16) -> List[dict
     if os.environ.get('SA_SERIAL') == '1':
         res = [worker(x) for x in work]
     else:
-        with ProcessPoolExecutor(max_workers=min(jobs, len(work))) as ex:
+        with ProcessPoolExecutor(max_workers=__import__('sa.rules.common', fromlist=['pool_size']).pool_size(len(work), jobs)) as ex:
             res = list(ex.map(worker, work, chunksize=1))
     errs = [f'[{r["tag"]}] {e}' for r in res for e in r['errors']]
     if errs:
